@@ -353,13 +353,52 @@ func ruleCancellationPolled(r *Report, rule string) {
 			n++
 			r.Fn(fi)
 			ret := false
+			isCtxErrReturn := func(rs *ast.ReturnStmt) bool {
+				if len(rs.Results) == 0 {
+					return false
+				}
+				last := rs.Results[len(rs.Results)-1]
+				if lc, ok := ast.Unparen(last).(*ast.CallExpr); ok {
+					if f := callee(info, lc); f != nil && qname(f) == "context.(Context).Err" {
+						return true
+					}
+				}
+				return false
+			}
 			if len(cc.Body) > 0 {
-				if rs, ok := cc.Body[len(cc.Body)-1].(*ast.ReturnStmt); ok && len(rs.Results) > 0 {
-					last := rs.Results[len(rs.Results)-1]
-					if lc, ok := ast.Unparen(last).(*ast.CallExpr); ok {
-						if f := callee(info, lc); f != nil && qname(f) == "context.(Context).Err" {
-							ret = true
+				if rs, ok := cc.Body[len(cc.Body)-1].(*ast.ReturnStmt); ok && isCtxErrReturn(rs) {
+					ret = true
+				}
+				if !ret {
+					// the case may leave through a jump (an expanded helper): every function exit that can be
+					// reached from the case must then be a `return ctx.Err()`
+					body := innermostFuncBody(fi.Decl, cc)
+					g := buildCFG(info, body)
+					var start ast.Node
+					for _, st := range cc.Body {
+						ast.Inspect(st, func(y ast.Node) bool {
+							if start != nil || y == nil {
+								return false
+							}
+							if _, ok := g.Locate(y); ok {
+								start = y
+								return false
+							}
+							return true
+						})
+					}
+					if start != nil {
+						good, bad := 0, 0
+						for _, rs := range returnsOf(body) {
+							if rs == start || g.ReachesNode(start, rs) {
+								if isCtxErrReturn(rs) {
+									good++
+								} else {
+									bad++
+								}
+							}
 						}
+						ret = good > 0 && bad == 0
 					}
 				}
 			}
